@@ -109,6 +109,13 @@ pub fn run<A: Cx>(d: &mut Drv<A>, focus: &str, scale: usize) {
                 if w * 3 <= 64 {
                     d.emit(json!({"op": "kmers", "src": x.clone(), "k": 3}));
                 }
+                // k-mers that fill the machine word (or all but one symbol of it): every window start
+                // relative to the byte and word grid occurs as the slice offset and the length sweep
+                for k in [64 / w, 64 / w - 1] {
+                    if k >= 4 && crate::kd::KS.contains(&k) && n >= k && i % 3 == k % 3 {
+                        d.emit(json!({"op": "kmers", "src": x.clone(), "k": k}));
+                    }
+                }
             }
             "c10" => {
                 if is_ord::<A>() && n > 0 {
